@@ -494,6 +494,57 @@ func (u *Unit) assign(st *State, x *ast.AssignStmt, c *Ctl, k func(*State)) {
 		k(st)
 		return
 	}
+	if len(x.Lhs) == 1 && len(x.Rhs) == 1 {
+		// v := f(args) where f is a local closure (or a literal called in place): executed inline in continuation style, so
+		// that a body with several return paths forks the caller's path instead of having to be merged into one value
+		if call, ok := ast.Unparen(x.Rhs[0]).(*ast.CallExpr); ok {
+			var lit *ast.FuncLit
+			switch f := ast.Unparen(call.Fun).(type) {
+			case *ast.FuncLit:
+				lit = f
+			case *ast.Ident:
+				if obj, ok := info.Uses[f].(*types.Var); ok {
+					if v, ok := st.env[obj]; ok && v.K == vFunc && v.Fn != nil {
+						lit = v.Fn
+					}
+				}
+			}
+			if lit != nil {
+				if sig, _ := info.TypeOf(lit).(*types.Signature); sig != nil && sig.Results().Len() == 1 {
+					args := ev.evalArgs(call, sig)
+					lhs := x.Lhs[0]
+					u.execLit(st, lit, args, call.Pos(), func(s2 *State, vals []Value) {
+						if len(vals) != 1 {
+							u.subsetErr(call.Pos(), "inline closure call: unexpected number of results")
+							return
+						}
+						ev2 := u.ev(s2, x.Pos())
+						if id, ok := lhs.(*ast.Ident); ok {
+							if id.Name == "_" {
+								k(s2)
+								return
+							}
+							if x.Tok == token.DEFINE {
+								if obj := info.Defs[id]; obj != nil {
+									s2.env[obj] = ev2.coerce(vals[0], obj.Type())
+									k(s2)
+									return
+								}
+							}
+						}
+						lv := ev2.lvalue(lhs)
+						if lv == nil {
+							u.subsetErr(lhs.Pos(), "unsupported assignment target %s", exprString(lhs))
+							return
+						}
+						ev2.assignLV(lv, vals[0])
+						k(s2)
+					})
+					return
+				}
+			}
+		}
+	}
 	if len(x.Lhs) == len(x.Rhs) {
 		// inline closure call on the rhs of a single assignment: result := func(){...}()
 		vals := make([]Value, len(x.Rhs))
@@ -1515,6 +1566,8 @@ func (u *Unit) returnStmt(st *State, x *ast.ReturnStmt, c *Ctl) {
 			extra["ret"] = vals[0]
 		}
 		u.ghostAtWith(st, fmt.Sprintf("returned#%d", k), x.Pos(), extra)
+		// "call returned#k: assert ..." sees the evaluated results as arg0, arg1, ...
+		u.callSiteClauses(u.ev(st, x.Pos()), fmt.Sprintf("returned#%d", k), nil, vals, nil)
 	}
 	c.ret(st, vals)
 }
